@@ -202,6 +202,7 @@ def check_files(rep, tier, rng):
         nrows_rg = pf.rg_rows()
 
         def on_result_on(k, v, fi=fi, damages=damages, cj=cj):
+            """Verdict for one damaged read with verification on."""
             i, mode, kind = k
             d = damages[i]
             rep.count(("on", fi, i, mode, kind))
@@ -219,14 +220,17 @@ def check_files(rep, tier, rng):
                               {"file_case": cj, "damage": d, "mode": mode, "reader": kind}, key=None)
 
         def on_fault_on(i, fault, stderr, damages=damages, cj=cj):
+            """A crash with verification on is a violation of C14."""
             rep.violation(f"crash / sanitizer report while reading a damaged page with verify_checksums=1: {fault.get('summary')}",
                           {"file_case": cj, "damage": damages[i], "stderr": stderr[-1500:]}, key=None)
 
         def on_result_off(k, v, fi=fi):
+            """Count one damaged read with verification off."""
             rep.count(("off", fi) + k)
             stats["damaged_reads"] += 1
 
         def on_fault_off(i, fault, stderr, damages=damages, case=case):
+            """A crash with verification off is recorded for C04, not failed here."""
             if len(off_faults) < 10:
                 off_faults.append({"file": case.name, "codec": case.options.codec, "damage": damages[i], "summary": fault.get("summary")})
             stats["off_faults"] = stats.get("off_faults", 0) + 1
